@@ -24,8 +24,8 @@ RULE = ("random walks on {whitespace, keep-chain, include-header, pdb-output, ap
 ASSUMPTIONS = ["'byte-identical' is judged on the numeric token text of the PQR atom lines (fixed columns or tokens)",
                "a terminus counts as 'actually neutralised' when the atoms of the two outputs show the lost amine "
                "hydrogen (N) or the gained HO (C)"]
-MIN = {"quick": {"pairs_compared": 350, "dropwater_pairs": 15, "neutral_pairs": 30, "ffout_pairs": 60, "dropwater_colliding_numbering": 4},
-       "thorough": {"pairs_compared": 12000, "dropwater_pairs": 800, "neutral_pairs": 900, "ffout_pairs": 2000, "dropwater_colliding_numbering": 400}}
+MIN = {"quick": {"pairs_compared": 350, "dropwater_pairs": 15, "neutral_pairs": 22, "ffout_pairs": 60, "dropwater_colliding_numbering": 4},
+       "thorough": {"pairs_compared": 12000, "dropwater_pairs": 800, "neutral_pairs": 700, "ffout_pairs": 2000, "dropwater_colliding_numbering": 400}}
 FLAGS = ["whitespace", "keepchain", "header", "pdbout", "apbs", "ffout"]
 
 
